@@ -232,7 +232,7 @@ var epoch = time.Unix(978307200, 0)
 // runScenarios executes scenarios against the driver. Bulk processes of scenarios with identical
 // process signatures share one OS process per process index; real processes run one per scenario.
 func runScenarios(sc *Scratch, d *Driver, scs []*Scenario, workers int) ([]*ScenarioRun, error) {
-	root := sc.Sub("run")
+	root := sc.Sub(sc.Next("run"))
 	runs := make([]*ScenarioRun, len(scs))
 	groups := map[string][]int{}
 	var order []string
